@@ -58,21 +58,27 @@ func (checker *TimestampChecker) IsUpToDate(t *ast.Task) (bool, error) {
 	timestampFileExists := err == nil
 	if timestampFileExists {
 		generates = append(generates, timestampFile)
-	} else {
-		// Create the timestamp file for the next execution when the file does not exist.
-		if !checker.dry {
-			if err := os.MkdirAll(filepath.Dir(timestampFile), 0o755); err != nil {
-				return false, err
-			}
-			f, err := os.Create(timestampFile)
-			if err != nil {
-				return false, err
-			}
-			f.Close()
-		}
 	}
 
 	taskTime := time.Now()
+
+	// Stamp a pending timestamp file with the time of this check. It only
+	// becomes the task's timestamp file once the task has run successfully
+	// (see OnSuccess), so an interrupted run leaves no trace of success.
+	if !checker.dry {
+		pendingFile := timestampFile + pendingSuffix
+		if err := os.MkdirAll(filepath.Dir(pendingFile), 0o755); err != nil {
+			return false, err
+		}
+		f, err := os.Create(pendingFile)
+		if err != nil {
+			return false, err
+		}
+		f.Close()
+		if err := os.Chtimes(pendingFile, taskTime, taskTime); err != nil {
+			return false, err
+		}
+	}
 
 	// Compare the time of the generates and sources. If the generates are old, the task will be executed.
 
@@ -86,13 +92,6 @@ func (checker *TimestampChecker) IsUpToDate(t *ast.Task) (bool, error) {
 	shouldUpdate, err := anyFileNewerThan(sources, generateMaxTime)
 	if err != nil {
 		return false, nil
-	}
-
-	// Modify the metadata of the file to the the current time.
-	if !checker.dry {
-		if err := os.Chtimes(timestampFile, taskTime, taskTime); err != nil {
-			return false, err
-		}
 	}
 
 	return timestampFileExists && !generatesMissing && !shouldUpdate, nil
@@ -161,10 +160,24 @@ func (checker *TimestampChecker) OnError(t *ast.Task) error {
 	if len(t.Sources) == 0 {
 		return nil
 	}
+	_ = os.Remove(checker.timestampFilePath(t) + pendingSuffix)
 	if err := os.Remove(checker.timestampFilePath(t)); err != nil && !os.IsNotExist(err) {
 		return err
 	}
 	return nil
+}
+
+// OnSuccess records the run: the timestamp stamped by the up-to-date check
+// becomes the task's timestamp file.
+func (checker *TimestampChecker) OnSuccess(t *ast.Task) error {
+	if len(t.Sources) == 0 || checker.dry {
+		return nil
+	}
+	err := os.Rename(checker.timestampFilePath(t)+pendingSuffix, checker.timestampFilePath(t))
+	if os.IsNotExist(err) {
+		return nil
+	}
+	return err
 }
 
 func (checker *TimestampChecker) timestampFilePath(t *ast.Task) string {
